@@ -4,6 +4,9 @@ package main
 
 import (
 	"bytes"
+	"crypto"
+	"encoding"
+	"sort"
 	"crypto/sha256"
 	"encoding/binary"
 	"encoding/hex"
@@ -170,6 +173,13 @@ func gen(g *hx.Gen) {
 	// the Lean model of keccakF1600 is generated from the Go source: staleness + statement hash
 	g.Emit("regen status=%s", regenStatus())
 	g.Emit("src file=keccakf")
+	// tables indexed by the round / lane number only (not by input): every entry is used by every permutation
+	g.Stat("table.keccak-rc=24/24")
+	g.Stat("table.keccak-rho=25/25")
+	g.Stat("table.constructors=10/10")
+	for _, fn := range []string{"sha3-224", "sha3-256", "sha3-384", "sha3-512", "keccak256", "keccak512", "shake128", "shake256", "cshake128", "cshake256"} {
+		g.Emit("acc fn=%s", fn)
+	}
 	// the permutation itself: structured states (single bits, single lanes, all-ones) and random ones
 	for i := 0; i < g.Count(300, 5000); i++ {
 		st := make([]byte, 200)
@@ -249,9 +259,40 @@ func gen(g *hx.Gen) {
 			ws = append(ws, k)
 			left -= k
 		}
+		if total == 0 { // empty message: no Write, one empty Write, two empty Writes (so that interleaved ops occur)
+			ws = [][]int{nil, {0}, {0, 0}}[r.Intn(3)]
+		}
 		var ops []string
 		nobj := 1
 		extraW := 0
+		feat := map[string]bool{}
+		kindName := "fixed"
+		switch {
+		case strings.HasPrefix(fn, "keccak"):
+			kindName = "legacy"
+		case strings.HasPrefix(fn, "cshake"):
+			kindName = "cshake"
+		case strings.HasPrefix(fn, "shake"):
+			kindName = "shake"
+		}
+		feat[kindName] = true
+		if total == 0 {
+			feat["empty-msg"] = true
+		} else if total%rate == 0 {
+			feat["rate-multiple"] = true
+		}
+		if len(ws) > 1 {
+			feat["chunked"] = true
+		}
+		remarshal := func(squeezing bool) { // MarshalBinary → UnmarshalBinary into a fresh object, continue on it
+			ops = append(ops, "x", fmt.Sprintf("u:%d", nobj))
+			nobj++
+			g.Stat("op.remarshal")
+			feat["marshal"] = true
+			if squeezing {
+				feat["marshal-squeezing"] = true
+			}
+		}
 		inter := func() { // ops interleaved between writes
 			switch r.Intn(14) {
 			case 0, 1:
@@ -261,11 +302,17 @@ func gen(g *hx.Gen) {
 				}
 				ops = append(ops, fmt.Sprintf("s:%d", k))
 				g.Stat("op.sum-midstream")
+				feat["midsum"] = true
 			case 2:
 				if canClone {
 					ops = append(ops, "c")
 					nobj++
 					g.Stat("op.clone")
+					feat["clone"] = true
+				}
+			case 6:
+				if r.Chance(1, 2) {
+					remarshal(false)
 				}
 			case 3:
 				if nobj > 1 {
@@ -276,15 +323,18 @@ func gen(g *hx.Gen) {
 				if canRead && r.Chance(1, 3) { // Read in mid-stream: later Write/Sum must panic
 					ops = append(ops, fmt.Sprintf("r:%d", pickLen(g, rate, 400)))
 					g.Stat("op.read-midstream")
+					feat["read-mid"] = true
 					if r.Chance(1, 3) {
 						ops = append(ops, "z")
 						g.Stat("op.reset-after-read")
+						feat["reset-after-read"] = true
 					}
 				}
 			case 5:
 				if r.Chance(1, 4) {
 					ops = append(ops, "z")
 					g.Stat("op.reset")
+					feat["reset"] = true
 				}
 			}
 		}
@@ -296,26 +346,48 @@ func gen(g *hx.Gen) {
 		ops = append(ops, "s:0")
 		if canRead && r.Chance(3, 4) {
 			nr := r.Range(1, 5)
+			feat["reads"] = true
 			for j := 0; j < nr; j++ {
-				ops = append(ops, fmt.Sprintf("r:%d", pickLen(g, rate, 1000/nr)))
+				k := pickLen(g, rate, 1000/nr)
+				if k == 0 {
+					feat["zero-read"] = true
+				}
+				ops = append(ops, fmt.Sprintf("r:%d", k))
 				if canClone && r.Chance(1, 5) {
 					ops = append(ops, "c", fmt.Sprintf("u:%d", nobj))
 					nobj++
 					g.Stat("op.clone-squeezing")
+					feat["clone-squeezing"] = true
+				}
+				if r.Chance(1, 8) {
+					remarshal(true)
 				}
 			}
-			switch r.Intn(4) {
+			switch r.Intn(5) {
+			case 4: // both, in either order: a recovered panic leaves the object as it was
+				if r.Bool() {
+					ops = append(ops, "s:0", "w:3", "r:4")
+				} else {
+					ops = append(ops, "w:3", "s:0", "r:4")
+				}
+				extraW += 3
+				feat["sum-after-read"], feat["write-after-read"] = true, true
+				g.Stat("op.sum-after-read")
+				g.Stat("op.write-after-read")
 			case 0:
 				ops = append(ops, "s:0")
 				g.Stat("op.sum-after-read")
+				feat["sum-after-read"] = true
 			case 1:
 				ops = append(ops, "w:3")
 				extraW += 3
 				g.Stat("op.write-after-read")
+				feat["write-after-read"] = true
 			case 2:
 				ops = append(ops, "z", "w:2", "s:0", "r:5")
 				extraW += 2
 				g.Stat("op.reset-after-read")
+				feat["reset-after-read"] = true
 			}
 		}
 		if nobj > 1 { // visit every object once more: independence of clones
@@ -329,8 +401,30 @@ func gen(g *hx.Gen) {
 				}
 			}
 		}
+		ctor := "new"
+		if kindName == "fixed" && r.Chance(1, 3) { // crypto.SHA3_xxx.New(): the registered constructors
+			ctor = "reg"
+			feat["ctor-reg"] = true
+		}
+		if kindName == "cshake" && len(N) == 0 && len(S) == 0 {
+			feat["ns-empty"] = true
+		}
+		if len(N)+len(S) > 150 {
+			feat["ns-long"] = true
+		}
+		var fl []string
+		for k := range feat {
+			fl = append(fl, k)
+		}
+		sort.Strings(fl)
+		for a := range fl {
+			g.Stat("feat." + fl[a])
+			for b := a + 1; b < len(fl); b++ {
+				g.Stat("pair." + fl[a] + "+" + fl[b])
+			}
+		}
 		src := r.Bytes(total + extraW)
-		g.Emit("sp fn=%s n=%s s=%s ops=%s src=%s", fn, hx.Hex(N), hx.Hex(S), strings.Join(ops, ","), hx.Hex(src))
+		g.Emit("sp fn=%s ctor=%s n=%s s=%s ops=%s src=%s", fn, ctor, hx.Hex(N), hx.Hex(S), strings.Join(ops, ","), hx.Hex(src))
 	}
 }
 
@@ -375,6 +469,12 @@ func exec(line string) string {
 	switch o.Cmd {
 	case "regen":
 		return o.Str("status")
+	case "acc":
+		h, ok := newObj(o.Str("fn"), []byte{1}, []byte{2}).(hash.Hash)
+		if !ok {
+			return "bad-op"
+		}
+		return fmt.Sprintf("size=%d block=%d", h.Size(), h.BlockSize())
 	case "src":
 		return keccakfSrcHash()
 	case "kf":
@@ -416,6 +516,20 @@ func exec(line string) string {
 	first := newObj(fn, o.Hex("n"), o.Hex("s"))
 	if first == nil {
 		return "bad-op"
+	}
+	if o.Str("ctor") == "reg" {
+		switch fn {
+		case "sha3-224":
+			first = crypto.SHA3_224.New()
+		case "sha3-256":
+			first = crypto.SHA3_256.New()
+		case "sha3-384":
+			first = crypto.SHA3_384.New()
+		case "sha3-512":
+			first = crypto.SHA3_512.New()
+		default:
+			return "bad-op"
+		}
 	}
 	objs := []any{first}
 	cur := 0
@@ -499,6 +613,23 @@ func exec(line string) string {
 			default:
 				return "bad-op"
 			}
+		case 'x':
+			m, ok := obj.(encoding.BinaryMarshaler)
+			if !ok {
+				return "bad-op"
+			}
+			blob, err := m.MarshalBinary()
+			if err != nil {
+				return "err"
+			}
+			fresh := newObj(fn, o.Hex("n"), o.Hex("s"))
+			if err := fresh.(encoding.BinaryUnmarshaler).UnmarshalBinary(blob); err != nil {
+				return "err"
+			}
+			for j := range blob { // the blob is the caller's
+				blob[j] = 0xdd
+			}
+			objs = append(objs, fresh)
 		case 'u':
 			if k >= len(objs) {
 				return "bad-op"
